@@ -10,9 +10,11 @@
    which the source holds that character.  End to end through the main loop
    of the expander, for every document of plain text, undeclared control
    words, comments, braces and pass-through macros with braced arguments
-   nested to any depth (C02_text_keeps_its_place): the text tokens leave the
-   expander as the scanner made them -- same character, same position, same
-   order -- and nothing else of visible text is in the output.  Not proved: that the expander
+   nested to any depth, and special sequences (C02_text_keeps_its_place):
+   the text tokens leave the expander as the scanner made them -- same
+   character, same position, same order --, a special sequence shows as its
+   tabulated text at the position of its first character, and nothing else
+   of visible text is in the output.  Not proved: that the expander
    moves copied tokens without changing position or text (arguments of
    macros, \text in maths, footnotes); tied by the correspondence run and
    the copy oracle of harness/props/c02.py on every generated case. *)
@@ -65,10 +67,10 @@ Print Assumptions C02_special_replacement_position.
 Theorem C02_text_keeps_its_place : forall rd fuel toks st st' out,
   bcl py_tables (macros st) toks ->
   exec py_tables rd fuel (TSeq toks None []) st = Ok (st', ASeq out []) ->
-  filter (solid py_isspace) out = texts toks.
+  filter (solid py_isspace) out = filter (solid py_isspace) (texts (rtoks py_tables toks)).
 Proof.
   exact (fun rd fuel toks st st' out =>
-           exec_args_positions py_tables rd (eq_refl true) (fun c => eq_refl)
+           exec_args_positions py_tables rd (eq_refl true) (fun c => eq_refl) (eq_refl true)
                                fuel toks st st' out (eq_refl true)).
 Qed.
 Print Assumptions C02_text_keeps_its_place.
@@ -83,12 +85,13 @@ Example C02_class_example :
   let st0 := upd_macros (Exec.init_state py_tables (s2l "en") false false true)
                         [(s2l "\um", um)] in
   let toks := fst (scan (t_scan py_tables) (s2l "a \um{b \foo{c}
-} d")) in
+} d--e")) in
   match exec py_tables (fun _ => None) 200 (TSeq toks None []) st0 with
   | Ok (st', ASeq out _) =>
       Some (map (fun t => (txt t, pos t)) (filter (solid py_isspace) out), unknowns st')
   | _ => None end
-  = Some ([([97]%N, 0); ([98]%N, 6); ([99]%N, 13); ([100]%N, 18)], [s2l "\foo"]).
+  = Some ([([97]%N, 0); ([98]%N, 6); ([99]%N, 13); ([100]%N, 18); ([8211]%N, 19);
+           ([101]%N, 21)], [s2l "\foo"]).
 Proof. vm_compute. reflexivity. Qed.
 
 (* the hypotheses are met: scanner and get_txt_pos on a small document *)
